@@ -18,6 +18,9 @@ type C19Step struct {
 	// PruneSel selects the prune height relative to the tip at that moment:
 	// 0 -> 0, 1 -> tip/3, 2 -> tip/2, 3 -> tip-1, 4 -> tip, 5 -> tip+3, 6 -> 1
 	PruneSel *int `json:"prune,omitempty"`
+	// Restart: the pruned node is shut down cleanly and started again on its
+	// own database (pruning must not keep a node from starting).
+	Restart bool `json:"restart,omitempty"`
 }
 
 // C19Case: history with prune steps.
@@ -39,6 +42,9 @@ func genC19(t *rapid.T) C19Case {
 		if i > 0 && kit.Chance(t, 22, "pruneroll") {
 			sel := kit.Uniform(t, 7, "prunesel")
 			c.Steps = append(c.Steps, C19Step{PruneSel: &sel})
+			if kit.Chance(t, 35, "restartroll") {
+				c.Steps = append(c.Steps, C19Step{Restart: true})
+			}
 		}
 		st := sub[i]
 		st.Malleated = false
@@ -137,6 +143,33 @@ func runC19(c C19Case, cs *kit.CaseStats) (err error) {
 	}
 
 	for si, st := range c.Steps {
+		if st.Restart {
+			before, beforeMRI := node.CM.Tip(), node.CM.MinReorgIndex()
+			node.Store.Flush()
+			n2, rerr := kit.OpenNode(tr, node.Backend)
+			if rerr != nil {
+				return fmt.Errorf("step %d: restarting the pruned node (tip %v, pruned below %d) on its own database failed: %v", si, before, prunedBelow, rerr)
+			}
+			if n2.CM.Tip() != before {
+				return fmt.Errorf("step %d: after a clean restart the pruned node is on %v, before it was on %v", si, n2.CM.Tip(), before)
+			}
+			if mri := n2.CM.MinReorgIndex(); mri != beforeMRI {
+				return fmt.Errorf("step %d: after a clean restart the pruned node reports the minimum reorg index %v, before it was %v", si, mri, beforeMRI)
+			}
+			for id := range node.Submitted {
+				n2.Submitted[id] = true
+			}
+			n2.MaxHeight = node.MaxHeight
+			node = n2
+			cs.Class("restart-of-the-pruned-node")
+			if prunedBelow > before.Height {
+				cs.Class("restart-with-the-tip-body-pruned")
+			}
+			if err := compare(fmt.Sprintf("step %d (restart)", si)); err != nil {
+				return err
+			}
+			continue
+		}
 		if st.PruneSel != nil {
 			tip := node.CM.Tip()
 			h := pruneHeight(*st.PruneSel, tip.Height)
